@@ -174,6 +174,7 @@ type vfTargetInfo struct {
 	peerLast, peerTag uint32
 	state             uint32
 	inflight          int
+	genuine           map[string][]byte // first genuine packet of each handshake kind that was delivered to the target
 }
 
 func vfTarget(a *Association) vfTargetInfo {
@@ -276,6 +277,21 @@ func vfHostileList(r *vfRand, ti vfTargetInfo) []vfHostile {
 		cls = "free"
 	}
 	add("cookie-ack", cls, pk().chunk(vfCtCookieAck, 0, nil).bytes(true))
+	// replays of the peer's genuine handshake packets (late duplicates): once the association is up they change
+	// nothing; a duplicate COOKIE-ECHO in ESTABLISHED may be answered with a COOKIE-ACK (RFC 4960 5.2.4 D)
+	if ti.state != closed && ti.state != cookieWait && ti.state != cookieEchoed {
+		for _, k := range []string{"INIT", "INIT-ACK", "COOKIE-ECHO", "COOKIE-ACK"} {
+			raw := ti.genuine[k]
+			if raw == nil {
+				continue
+			}
+			cl := "ignore"
+			if k == "COOKIE-ECHO" && ti.state == established {
+				cl = "free"
+			}
+			add("replay-genuine-"+k, cl, raw)
+		}
+	}
 	add("cookie-echo-wrong-cookie", "ignore", pk().chunk(vfCtCookieEcho, 0, []byte("not-the-cookie-you-sent")).bytes(true))
 	cls = "ignore"
 	if ti.state == closed || ti.state == cookieWait || ti.state == cookieEchoed {
@@ -544,7 +560,16 @@ func vfRunHostile(t *testing.T, spec *vfSpec, res *vfRes) {
 		}
 		a := sim.getAssoc(0)
 		r := vfNewRand(spec.Seed ^ 0xbad)
-		list := vfHostileList(r, vfTarget(a))
+		ti := vfTarget(a)
+		ti.genuine = map[string][]byte{}
+		for _, e := range sim.net.events() {
+			if e.Kind == vfWrDeliver && e.Side == 0 {
+				if k := vfFirstChunkKind(e.Raw); ti.genuine[k] == nil {
+					ti.genuine[k] = e.Raw
+				}
+			}
+		}
+		list := vfHostileList(r, ti)
 		var picked []vfHostile
 		for _, h := range list {
 			if h.class == mode {
@@ -560,7 +585,9 @@ func vfRunHostile(t *testing.T, spec *vfSpec, res *vfRes) {
 			picked = picked[:1]
 		}
 		onlyIgnore := mode == "ignore"
+		var probed []string
 		for _, h := range picked {
+			probed = append(probed, h.name)
 			if a.getState() == closed {
 				break
 			}
@@ -641,7 +668,7 @@ func vfRunHostile(t *testing.T, spec *vfSpec, res *vfRes) {
 			finish()
 		}
 		res.res.Nontrivial = res.get("c03_reached_handler") > 0
-		res.res.Sample = map[string]any{"kind": "hostile", "state": vfStateNames[want], "context": ctxKind, "mode": mode, "probes": res.get("c03_assoc_probes"), "reached_handler": res.get("c03_reached_handler")}
+		res.res.Sample = map[string]any{"kind": "hostile", "state": vfStateNames[want], "context": ctxKind, "mode": mode, "probes": res.get("c03_assoc_probes"), "reached_handler": res.get("c03_reached_handler"), "roles": spec.Roles, "names": probed}
 	})
 }
 
@@ -699,6 +726,10 @@ func vfGenHostileSpecs(tier string, seed uint64, race bool) []vfSpec {
 						sp.B.MaxMsg = vfEffMaxMsg(&sp.B, &sp.A, 1, il)
 						sp.X = map[string]int64{"state": int64(st)}
 						sp.XS = map[string]string{"ctx": cx, "mode": mode}
+						if st != closed && st != cookieWait && st != cookieEchoed && vfHash(seed, uint64(idx), 0xcc)%2 == 1 {
+							// both sides connect as clients: the target then owns a cookie and has received a genuine COOKIE-ECHO
+							sp.Roles = "cc"
+						}
 						out = append(out, sp)
 						idx++
 					}
